@@ -175,7 +175,7 @@ ApCloneVec(st, a, fr) ==
   LET V == st.v[a.v]  W == st.v[a.to]
       cl == [i \in 1..Len(V.el) |-> <<fr[i], V.el[i][2]>>] IN
   IF Cfg.fixed /\ Len(V.el) > W.cap THEN OutL(st, "panic", <<>>, <<>>, "panic")
-  ELSE [Out(SetV(st, a.to, [W EXCEPT !.el = cl, !.cap = IF Cfg.trackcap THEN Len(cl) ELSE @]), "ok", <<>>, Ids(W.el))
+  ELSE [Out(SetV(st, a.to, [W EXCEPT !.el = cl, !.gen = 1, !.cap = IF Cfg.trackcap THEN Len(cl) ELSE @]), "ok", <<>>, Ids(W.el))
           EXCEPT !.clones = Ids(V.el), !.capc = CapC(a.to, Len(cl), -1)]
 
 (* the source value of a lazy clone: an element reference, the value held by a removal handle, a kept drained item *)
@@ -214,6 +214,40 @@ ApLazy(st, a, fr) ==
 (* clone_empty / clone_empty_in(backend) probe: the empty twin accepts a fresh value and (if cloneable) a lazy clone *)
 (* of the source's first element, is itself cloned and everything created is destroyed again; the source is unchanged *)
 ApCeProbe(st, a) == Out(st, "ok", <<>>, <<>>)
+
+---------------------------------------------------------------------------
+(* raw parts (C17): decomposing and rebuilding changes nothing, destroys nothing, touches no storage *)
+ApRaw(st, a) == [Out(SetV(st, a.v, [st.v[a.v] EXCEPT !.gen = 1]), "ok", <<>>, <<>>) EXCEPT !.capc = CapC(a.v, -2, -2)]
+
+(* wrong runtime type (C04): push / insert / element swap reject the value (panic, vector unchanged, the offered value is  *)
+(* destroyed exactly once - it is the driver's first fresh identity); a splice with a mismatching item is only "valid"     *)
+ApWrong(st, a, fr) ==
+  IF a.op = "splice_wrong"
+  THEN OutL(st, "panic", <<>>, <<>>, "panic")
+  ELSE Out(st, "panic", <<>>, IF a.ty = "Y8" THEN <<>> ELSE <<fr[1]>>)      \* Y8 has no drop glue: its destruction is not observable
+
+(* downcast queries succeed exactly when the requested type is the real one *)
+ApDowncastQ(st, a) == Out(st, IF a.ty = "real" THEN "ok" ELSE "none", <<>>, <<>>)
+
+(* element swap (C13): exactly the two values are exchanged, whatever kinds of handles hold them *)
+ApSwap(st, a, fr) ==
+  LET V == st.v[a.v]  e1 == V.el[a.i + 1] IN
+  CASE a.with = "elem" ->
+         LET W == st.v[a.to]  e2 == W.el[a.j + 1] IN
+         Out(SetV(SetV(st, a.v, [V EXCEPT !.el[a.i + 1] = e2]), a.to, [W EXCEPT !.el[a.j + 1] = e1]), "ok", <<>>, <<>>)
+    [] a.with = "handle" ->
+         LET W == st.v[a.to] IN
+         Out(SetV(SetV(st, a.v, [V EXCEPT !.el[a.i + 1] = W.h.held]), a.to, [W EXCEPT !.h.held = e1, !.h.pre[W.h.idx + 1] = e1]), "ok", <<>>, <<>>)
+    [] a.with \in {"wrapper", "typed"} ->
+         Out([SetV(st, a.v, [V EXCEPT !.el[a.i + 1] = <<fr[1], 0>>]) EXCEPT !.ext = Append(@, e1)], "ok", <<>>, <<>>)
+    [] a.with = "raw" ->
+         LET n == Len(st.ext) IN
+         Out([SetV(st, a.v, [V EXCEPT !.el[a.i + 1] = st.ext[n]]) EXCEPT !.ext[n] = e1], "ok", <<>>, <<>>)
+
+(* values written into spare capacity become exactly the new tail after set_len (C12) *)
+ApSpareWrite(st, a, fr) ==
+  LET V == st.v[a.v] IN
+  [Out(SetV(st, a.v, [V EXCEPT !.el = @ \o [j \in 1..a.k |-> <<fr[j], 0>>]]), "ok", <<>>, <<>>) EXCEPT !.capc = CapC(a.v, -2, -2)]
 
 ---------------------------------------------------------------------------
 (* drain / splice *)
@@ -331,6 +365,11 @@ Apply(st, a, fr) ==
     [] a.op = "clone_vec"          -> ApCloneVec(st, a, fr)
     [] a.op = "lazy"               -> ApLazy(st, a, fr)
     [] a.op = "ce_probe"           -> ApCeProbe(st, a)
+    [] a.op = "raw_roundtrip"      -> ApRaw(st, a)
+    [] a.op \in {"push_wrong", "insert_wrong", "swap_wrong", "splice_wrong"} -> ApWrong(st, a, fr)
+    [] a.op = "downcast_q"         -> ApDowncastQ(st, a)
+    [] a.op = "swap"               -> ApSwap(st, a, fr)
+    [] a.op = "spare_write"        -> ApSpareWrite(st, a, fr)
 
 (* Is the action applicable at all (borrow discipline; which handle must be present)?  A trace event  *)
 (* that is not applicable is a tool error of the driver, not a verdict about the implementation.      *)
@@ -348,6 +387,20 @@ Applicable(st, a) ==
        [] a.op = "ext_drop" -> st.ext # <<>>
        [] a.op = "clone_vec" -> hk = "none" /\ a.to \in Vecs /\ a.to # a.v /\ Quiet(st, a.to)
        [] a.op = "ce_probe" -> hk = "none"
+       [] a.op \in {"raw_roundtrip", "push_wrong", "insert_wrong", "splice_wrong"} -> hk = "none"
+       [] a.op = "swap_wrong" -> hk = "none" /\ a.i < Len(st.v[a.v].el)
+       [] a.op = "spare_write" -> hk = "none" /\ Len(st.v[a.v].el) + a.k <= st.v[a.v].cap
+       [] a.op = "downcast_q" ->
+            CASE a.what \in {"vec_ref", "vec_mut"} -> hk = "none"
+              [] a.what \in {"elem_ref", "elem_mut"} -> hk = "none" /\ a.i < Len(st.v[a.v].el)
+              [] a.what = "handle" -> hk = "tmp"
+              [] OTHER -> FALSE
+       [] a.op = "swap" ->
+            /\ hk = "none" /\ a.i < Len(st.v[a.v].el)
+            /\ CASE a.with = "elem" -> a.to \in Vecs /\ a.to # a.v /\ Quiet(st, a.to) /\ a.j < Len(st.v[a.to].el)
+                 [] a.with = "handle" -> a.to \in Vecs /\ a.to # a.v /\ st.v[a.to].h.k = "tmp"
+                 [] a.with = "raw" -> st.ext # <<>>
+                 [] OTHER -> TRUE
        [] a.op = "lazy" ->
             /\ CASE a.kind = "elem" -> hk = "none" /\ a.i < Len(st.v[a.v].el)
                  [] a.kind = "handle" -> hk = "tmp"
@@ -392,6 +445,8 @@ FreshFrom(used, k, n) == IF n = 0 THEN <<>>
                          ELSE <<k>> \o FreshFrom(used, k + 1, n - 1)
 Fresh(st, n) == FreshFrom(UsedIds(st), 1, n)
 
-Init0 == [v |-> [x \in Vecs |-> [alive |-> TRUE, el |-> <<>>, cap |-> IF Cfg.fixed THEN Cfg.fcap ELSE 0, h |-> NoH]],
+(* `gen` marks a vector object that was produced by clone() or rebuilt from raw parts (1) rather than constructed (0): it has  *)
+(* no contract meaning, but keeps such states apart in the exploration so that every operation is also replayed on them    *)
+Init0 == [v |-> [x \in Vecs |-> [alive |-> TRUE, el |-> <<>>, cap |-> IF Cfg.fixed THEN Cfg.fcap ELSE 0, h |-> NoH, gen |-> 0]],
           ext |-> <<>>, leaked |-> {}]
 =============================================================================
